@@ -477,8 +477,10 @@ class FakeClientSession:
         verdict = net.link_verdict(type(self).cidx, 'ws')
         if verdict == 'refuse':
             net.fault('conn_refused')
-            raise _real_aiohttp.ClientConnectionError(
-                'Cannot connect to host (simulated)')
+            class _Key:
+                host, port, ssl, is_ssl = netloc, None, None, False
+            raise _real_aiohttp.ClientConnectorError(
+                _Key(), OSError(111, 'Connection refused (simulated)'))
         ws = FakeAioWS(net, type(self).cidx, loop)
         ws.conn = net.ws_connect(type(self).cidx, query, hdrs, handler=ws,
                                  path=path, scheme=scheme, tag='client')
@@ -492,6 +494,14 @@ class FakeClientSession:
         except asyncio.TimeoutError:
             ws.conn.drop()
             raise _real_aiohttp.ServerTimeoutError('handshake timed out')
+        if ok == -1:
+            # no HTTP answer at all: the TCP connection could not be made
+            # (what aiohttp raises then is ClientConnectorError, a
+            # ClientOSError / ClientConnectionError, not a handshake error)
+            class _Key:
+                host, port, ssl, is_ssl = netloc, None, None, False
+            raise _real_aiohttp.ClientConnectorError(
+                _Key(), OSError(111, 'Connection refused (simulated)'))
         if ok is not True:
             raise _real_aiohttp.WSServerHandshakeError(
                 _ReqInfo(url), (), status=ok if isinstance(ok, int) else 400,
